@@ -1,4 +1,801 @@
 import Bardolph.Model.Lex
-/-! # C16 — compilation depends only on the token sequence (theorems below) -/
+import Bardolph.Proofs.LexLemmas
+import Bardolph.Proofs.VmSteps
+/-!
+# C16 — compilation depends only on the token sequence; every documented name is usable
+
+Theorems about the lexer model `Bardolph.Lex` (`Model/Lex.lean`, a hand-written model of
+`bardolph/parser/lex.py`; helper lemmas in `Proofs/LexLemmas.lean`) and two peephole lemmas
+about the VM model.  Statements are about one line as a `List Char`: `splitLine` is
+`re.finditer` over the line, `lineTokens` turns the matches into tokens.  Every fuel that is
+at least the length of the text gives the same result (`splitLine_fuel`); `Lex.tokens` uses
+`length + 1`.
+
+1. `C16_regex_sources_agree` pins the regular-expression SOURCE strings, the order of the
+   alternation, the classification order, the abbreviation table, the punctuation list and
+   `_NOT_KEYWORDS` — all regenerated from the Python source on every run — to the literals the
+   hand-written scanners implement.  Changing a regular expression in `lex.py` breaks it.
+   `C16_keyword_table_shape`: keywords = lower-cased `TokenTypes` minus `_NOT_KEYWORDS`.
+2. `C16_identifier_free` (+ `_string`), `C16_case_sensitive`, `C16_case_sensitive_name`,
+   `C16_class_names_free`: every word of the documented name form that is not a generated
+   keyword, register word or abbreviation is ONE `NAME` token carrying itself; a word with an
+   upper-case letter never gets a keyword type; `number`, `eof`, `mark`, … are names.
+3. `C16_string_free_general`, `C16_string_free`, `C16_string_backslash_last`,
+   `C16_hash_in_string`: a quoted string whose content has no `"` and does not end in `\` is
+   ONE `LITERAL_STRING` token carrying exactly its content, whatever follows; content ending
+   in `\` too if no other `"` follows on the line (known finding C16-F1 otherwise).
+4. `C16_whitespace_insensitive`, `C16_whitespace_kind`, `C16_leading_whitespace`,
+   `C16_trailing_whitespace`, `C16_tokens_never_join`, `C16_linebreak_as_blank`;
+   `C16_punct_own_token`, `C16_word_then_any`, `C16_digits_then_any` (no white space needed
+   round operators, braces, brackets); `C16_layout_invariant`, `C16_relayout` (a line of
+   quote-free pieces and string literals separated by arbitrary non-empty white space has the
+   matches of its pieces, whatever the separators).
+5. `C16_comment_cut`, `C16_no_comment_no_cut`, `C16_comment_after_ws`, `C16_comment_line`.
+6. `C16_abbrev_same`, `C16_abbrev_same_in_line`.
+7. `C16_peephole_pushq_pop`, `C16_peephole_push_pop`, `C16_push_none_faults` (VM).
+
+Not covered here (correspondence/tests only): the `String`-level `Lex.tokens` (splitting the
+text at `\n`), the parser's optional brackets/braces, and white space other than the six
+ASCII characters of `isWs` (Python's `\s` also takes `\x1c`–`\x1f`, `\x85`, `\xa0`, …: the
+model lexes `"@\x1c@"` as one ERROR token, Python as two).
+-/
+namespace Bardolph.Lex
+open Bardolph.Generated
+
+/-! ## 1. The generated tables are the ones the scanners implement -/
+
+theorem C16_regex_sources_agree :
+    Generated.TimePattern.regexSpec
+        = "(\\*|\\*\\d|\\d\\*|\\d\\d?):(\\d\\d|\\d\\*|\\*\\d|\\*)(?=(\\s|$))" ∧
+    LexTables.cmpSpec = "==|<=|>=|!=|[<>]" ∧
+    LexTables.literalStringSpec = "\"([^\"]|(?<=\\\\)\")*\"" ∧
+    LexTables.numberSpec = "[0-9]*\\.?[0-9]+" ∧
+    LexTables.nameSpec = "[a-zA-Z_][a-zA-Z0-9_]*" ∧
+    LexTables.nonAlnumSpec = "==|<=|>=|[\\[\\]\\(\\){}+\\-*<>/%#:\\^]" ∧
+    LexTables.defaultSpec = "[^\\s]+" ∧
+    LexTables.alternationOrder =
+      ["TimePattern.REGEX_SPEC", "_CMP_SPEC", "_LITERAL_STRING_SPEC", "_NUMBER_SPEC",
+       "_NAME_SPEC", "_NON_ALNUM_SPEC", "_DEFAULT_SPEC"] ∧
+    LexTables.classifyOrder = ["COMPARE", "TIME_PATTERN", "LITERAL_STRING", "NUMBER", "NAME"] ∧
+    LexTables.abbreviations =
+      [("B", "brightness"), ("H", "hue"), ("K", "kelvin"), ("S", "saturation")] ∧
+    LexTables.nonAlnumList = "[]{}()+-*/%#:^" ∧
+    LexTables.notKeywords =
+      ["COMPARE", "EOF", "ERROR", "LITERAL_STRING", "MARK", "NAME", "NULL", "NUMBER", "REGISTER",
+       "SYNTAX_ERROR", "TIME_PATTERN", "UNKNOWN"] := by
+  decide
+
+/-- the keyword list is exactly the lower-cased `TokenTypes` members that are not in
+`_NOT_KEYWORDS` (as a set: the generated list is sorted); every keyword and register word is lower case and of the name form -/
+theorem C16_keyword_table_shape :
+    (∀ w : List Char, w ∈ LexTables.keywords.map String.toList ↔
+      w ∈ (LexTables.tokenTypes.filter (!LexTables.notKeywords.contains ·)).map
+        (fun s => s.toList.map Char.toLower)) ∧
+    LexTables.keywords.all isLower = true ∧ LexTables.registerWords.all isLower = true ∧
+    (LexTables.keywords ++ LexTables.registerWords).all (fun k =>
+      match k.toList with
+      | c :: cs => isNameStart c && cs.all isNameChar
+      | [] => false) = true := by
+  refine ⟨fun w => ⟨fun h => ?_, fun h => ?_⟩, by decide +kernel, by decide +kernel,
+    by decide +kernel⟩
+  · have : ∀ w ∈ LexTables.keywords.map String.toList,
+        w ∈ (LexTables.tokenTypes.filter (!LexTables.notKeywords.contains ·)).map
+          (fun s => s.toList.map Char.toLower) := by decide +kernel
+    exact this w h
+  · have : ∀ w ∈ (LexTables.tokenTypes.filter (!LexTables.notKeywords.contains ·)).map
+          (fun s => s.toList.map Char.toLower), w ∈ LexTables.keywords.map String.toList := by
+      decide +kernel
+    exact this w h
+
+/-! ## 2. Every word of the documented name form is usable as a name, case-sensitively -/
+
+/-- A word `c :: cs` of the documented name form (a letter or underscore, then letters, digits,
+underscores) that is not one of the generated keywords, register words or abbreviation keys is
+ONE match of the token regular expression and becomes ONE `NAME` token whose content is the
+word itself, unchanged. -/
+theorem C16_identifier_free (n : Nat) (c : Char) (cs : List Char)
+    (hc : isNameStart c = true) (hcs : cs.all isNameChar = true)
+    (hk : String.ofList (c :: cs) ∉ LexTables.keywords)
+    (hr : String.ofList (c :: cs) ∉ LexTables.registerWords)
+    (ha : String.ofList (c :: cs) ∉ LexTables.abbreviations.map (·.1)) :
+    lineTokens n (splitLine ((c :: cs).length + 1) (c :: cs))
+      = [⟨"NAME", String.ofList (c :: cs), n⟩] := by
+  rw [splitLine_name hc hcs, lineTokens_name n hc hk hr ha]; rfl
+
+/-- the same for a whole one-word script, at the `String` level -/
+theorem C16_identifier_free_string (w : String) (c : Char) (cs : List Char)
+    (hw : w.toList = c :: cs) (hc : isNameStart c = true) (hcs : cs.all isNameChar = true)
+    (hk : w ∉ LexTables.keywords) (hr : w ∉ LexTables.registerWords)
+    (ha : w ∉ LexTables.abbreviations.map (·.1)) :
+    lineTokens n (splitLine (w.length + 1) w.toList) = [⟨"NAME", w, n⟩] := by
+  have e : w = String.ofList (c :: cs) := by rw [← hw, String.ofList_toList]
+  have hl : w.length = (c :: cs).length := by rw [← hw, String.length_toList]
+  rw [hl, hw]
+  subst e
+  exact C16_identifier_free n c cs hc hcs hk hr ha
+
+/-- the types the regular-expression classification of `Lex._token_type` can give -/
+def regexTypes : List String :=
+  ["COMPARE", "TIME_PATTERN", "LITERAL_STRING", "NUMBER", "NAME", "ERROR"]
+
+/-- none of them is the type of a keyword, and none is `REGISTER` -/
+theorem regexTypes_not_keywords :
+    (∀ t ∈ regexTypes, t ∈ LexTables.notKeywords ∧ t ≠ "REGISTER") ∧
+    (∀ k ∈ LexTables.keywords, ∀ t ∈ regexTypes, t.toList ≠ k.toList.map Char.toUpper) := by
+  constructor <;> decide +kernel
+
+/-- `Lex._token_type`: a keyword type is given only to a lower-case word in the keyword list,
+`REGISTER` only to a register word; everything else is classified by the regular
+expressions. -/
+theorem tokenType_cases (w : String) :
+    (isLower w = true ∧ w ∈ LexTables.keywords ∧ tokenType w = w.toUpper) ∨
+    (w ∈ LexTables.registerWords ∧ tokenType w = "REGISTER") ∨
+    tokenType w ∈ regexTypes := by
+  unfold tokenType
+  by_cases h1 : (isLower w && LexTables.keywords.contains w) = true
+  · left
+    rw [if_pos h1]
+    simp only [Bool.and_eq_true, List.contains_eq_mem, decide_eq_true_eq] at h1
+    exact ⟨h1.1, h1.2, rfl⟩
+  · right
+    rw [if_neg h1]
+    by_cases h2 : LexTables.registerWords.contains w = true
+    · left
+      rw [if_pos h2]
+      exact ⟨by simpa using h2, rfl⟩
+    · right
+      rw [if_neg h2]
+      cases hf : LexTables.classifyOrder.find? fun t => classifyBy t w.toList with
+      | none => simp [regexTypes]
+      | some t =>
+        have hm := List.mem_of_find?_eq_some hf
+        simp only [Option.getD_some]
+        revert hm
+        simp only [LexTables.classifyOrder, regexTypes, List.mem_cons, List.not_mem_nil, or_false]
+        intro hm
+        rcases hm with h | h | h | h | h <;> simp [h]
+
+/-- Case sensitivity: a word that contains an upper-case ASCII letter is never given a keyword
+type and never `REGISTER` — `Lex._token_type` classifies it by the regular expressions only
+(so `Set`, `IF`, `Hue` are names).  (The four one-letter abbreviations are replaced BEFORE
+classification, see `C16_abbrev_same`.) -/
+theorem C16_case_sensitive (w : String) (h : isLower w = false) :
+    tokenType w ∈ regexTypes ∧ tokenType w ∈ LexTables.notKeywords ∧ tokenType w ≠ "REGISTER" := by
+  have hreg : w ∉ LexTables.registerWords := by
+    intro hm
+    have : ∀ k ∈ LexTables.registerWords, isLower k = true := by decide +kernel
+    rw [this w hm] at h; cases h
+  have hmem : tokenType w ∈ regexTypes := by
+    rcases tokenType_cases w with ⟨hl, _, _⟩ | ⟨hm, _⟩ | hm
+    · rw [hl] at h; cases h
+    · exact absurd hm hreg
+    · exact hm
+  exact ⟨hmem, (regexTypes_not_keywords.1 _ hmem).1, (regexTypes_not_keywords.1 _ hmem).2⟩
+
+/-- … and if it has the name form and is not one of `H S B K`, it is a `NAME` carrying itself:
+case variants of keywords (`Set`, `IF`, `Define`) and of register words (`Hue`) are free. -/
+theorem C16_case_sensitive_name (n : Nat) (c : Char) (cs : List Char)
+    (hc : isNameStart c = true) (hcs : cs.all isNameChar = true)
+    (hu : isLower (String.ofList (c :: cs)) = false)
+    (ha : String.ofList (c :: cs) ∉ LexTables.abbreviations.map (·.1)) :
+    lineTokens n (splitLine ((c :: cs).length + 1) (c :: cs))
+      = [⟨"NAME", String.ofList (c :: cs), n⟩] := by
+  have hk : ∀ k ∈ LexTables.keywords, isLower k = true := by decide +kernel
+  have hr : ∀ k ∈ LexTables.registerWords, isLower k = true := by decide +kernel
+  refine C16_identifier_free n c cs hc hcs (fun hm => ?_) (fun hm => ?_) ha
+  · rw [hk _ hm] at hu; cases hu
+  · rw [hr _ hm] at hu; cases hu
+
+/-- the internal token-class names are ordinary names too (on the pinned tree a variable called
+`number` crashed the compiler and `eof` ended the script) -/
+theorem C16_class_names_free (n : Nat) :
+    ∀ t ∈ LexTables.notKeywords,
+      lineTokens n (splitLine ((t.toList.map Char.toLower).length + 1) (t.toList.map Char.toLower))
+        = [⟨"NAME", String.ofList (t.toList.map Char.toLower), n⟩] := by
+  intro t ht
+  have key : ∀ t ∈ LexTables.notKeywords,
+      (match t.toList.map Char.toLower with
+        | c :: cs => isNameStart c && cs.all isNameChar
+        | [] => false) = true ∧
+      String.ofList (t.toList.map Char.toLower) ∉ LexTables.keywords ∧
+      String.ofList (t.toList.map Char.toLower) ∉ LexTables.registerWords ∧
+      String.ofList (t.toList.map Char.toLower) ∉ LexTables.abbreviations.map (·.1) := by
+    decide +kernel
+  obtain ⟨h1, h2, h3, h4⟩ := key t ht
+  cases hw : t.toList.map Char.toLower with
+  | nil => rw [hw] at h1; cases h1
+  | cons c cs =>
+    rw [hw] at h1 h2 h3 h4
+    simp only [Bool.and_eq_true] at h1
+    exact C16_identifier_free n c cs h1.1 h1.2 h2 h3 h4
+
+example : lineTokens 7 (splitLine 4 "Set".toList) = [⟨"NAME", "Set", 7⟩] := by decide +kernel
+example : lineTokens 7 (splitLine 7 "number".toList) = [⟨"NAME", "number", 7⟩] := by
+  decide +kernel
+example : lineTokens 7 (splitLine 4 "_x9".toList) = [⟨"NAME", "_x9", 7⟩] := by decide +kernel
+example : lineTokens 7 (splitLine 4 "eof".toList) = [⟨"NAME", "eof", 7⟩] :=
+  C16_identifier_free_string "eof" 'e' ['o', 'f'] rfl (by decide) (by decide) (by decide)
+    (by decide) (by decide)
+/-- the hypotheses of `C16_identifier_free` exclude exactly what they should -/
+example : lineTokens 7 (splitLine 4 "set".toList) = [⟨"SET", "set", 7⟩] := by decide +kernel
+example : tokenType "Set" = "NAME" ∧ isLower "Set" = false := by decide +kernel
+
+/-! ## 6. The four abbreviations -/
+
+/-- `H S B K` give exactly the tokens of `hue saturation brightness kelvin`, on every line, and
+there are no other abbreviations. -/
+theorem C16_abbrev_same (n : Nat) :
+    lineTokens n [['H']] = lineTokens n ["hue".toList] ∧
+    lineTokens n [['S']] = lineTokens n ["saturation".toList] ∧
+    lineTokens n [['B']] = lineTokens n ["brightness".toList] ∧
+    lineTokens n [['K']] = lineTokens n ["kelvin".toList] ∧
+    LexTables.abbreviations.length = 4 ∧
+    LexTables.abbreviations.map (·.1) = ["B", "H", "K", "S"] :=
+  ⟨rfl, rfl, rfl, rfl, rfl, rfl⟩
+
+/-- … in any position of a line: the match `H` and the match `hue` give the same token -/
+theorem C16_abbrev_same_in_line (n : Nat) (pre post : List (List Char)) :
+    ∀ p ∈ [("H", "hue"), ("S", "saturation"), ("B", "brightness"), ("K", "kelvin")],
+      lineTokens n (pre ++ p.1.toList :: post) = lineTokens n (pre ++ p.2.toList :: post) := by
+  intro p hp
+  induction pre with
+  | nil =>
+    simp only [List.mem_cons, List.not_mem_nil, or_false] at hp
+    rcases hp with rfl | rfl | rfl | rfl <;> rfl
+  | cons m pre ih =>
+    simp only [List.cons_append, lineTokens]
+    split
+    · rfl
+    · split <;> rw [ih]
+
+example : lineTokens 2 (splitLine 99 "set H 120 S 50 B 75 K 2700".toList)
+    = lineTokens 2 (splitLine 99 "set hue 120 saturation 50 brightness 75 kelvin 2700".toList) := by
+  decide +kernel
+example : lineTokens 2 [['H']] = [⟨"REGISTER", "hue", 2⟩] := by decide +kernel
+/-- lower-case `h` is not an abbreviation -/
+example : lineTokens 2 [['h']] = [⟨"NAME", "h", 2⟩] := by decide +kernel
+
+/-! ## 3. A quoted string may contain anything but a double quote -/
+
+/-- Content without `"` that does not END in a backslash (backslashes elsewhere are fine): the
+text `"cs"` followed by ANY further text `rest` (white space, letters, another quote, …) gives
+the ONE token `LITERAL_STRING cs` and then the tokens of `rest`.  Nothing inside `cs` —
+punctuation, keywords, `#`, digits, white space — is seen by the other scanners. -/
+theorem C16_string_free_general (n f : Nat) (cs rest : List Char) (hq : '"' ∉ cs)
+    (hl : cs.getLast? ≠ some '\\') :
+    lineTokens n (splitLine (f + 1) ('"' :: (cs ++ '"' :: rest)))
+      = ⟨"LITERAL_STRING", String.ofList cs, n⟩ :: lineTokens n (splitLine f rest) := by
+  rw [splitLine_string f cs rest
+      (scanStringBody_noesc '"' cs rest hq (getLast?_quote_cons cs hl)),
+    lineTokens_string n cs hq]
+
+/-- the same for content without `"` and without `\` at all (the form asked for) -/
+theorem C16_string_free (n f : Nat) (cs rest : List Char) (hq : '"' ∉ cs) (hb : '\\' ∉ cs) :
+    lineTokens n (splitLine (f + 1) ('"' :: (cs ++ '"' :: rest)))
+      = ⟨"LITERAL_STRING", String.ofList cs, n⟩ :: lineTokens n (splitLine f rest) := by
+  refine C16_string_free_general n f cs rest hq (fun h => hb ?_)
+  exact List.mem_of_getLast? h
+
+/-- … in particular the line consisting of the literal alone is that single token -/
+theorem C16_string_free_alone (n f : Nat) (cs : List Char) (hq : '"' ∉ cs) (hb : '\\' ∉ cs) :
+    lineTokens n (splitLine (f + 1) ('"' :: (cs ++ ['"'])))
+      = [⟨"LITERAL_STRING", String.ofList cs, n⟩] := by
+  rw [C16_string_free n f cs [] hq hb, splitLine_nil]; rfl
+
+/-- … and followed by a blank and more text, as asked for in the property -/
+theorem C16_string_free_then_space (n f : Nat) (cs rest : List Char) (hq : '"' ∉ cs)
+    (hb : '\\' ∉ cs) :
+    lineTokens n (splitLine (f + 2) ('"' :: (cs ++ '"' :: ' ' :: rest)))
+      = ⟨"LITERAL_STRING", String.ofList cs, n⟩ :: lineTokens n (splitLine f rest) := by
+  rw [C16_string_free n (f + 1) cs (' ' :: rest) hq hb]
+  rfl
+
+/-- Backslashes: content without `"` but with arbitrary backslashes (also at the end) is still
+ONE string token carrying exactly the content, PROVIDED no further `"` follows on the line.
+(If one does, a content ending in a backslash makes the regular expression treat the closing
+quote as escaped and the literal runs on to the LAST such quote — `(?<=\\)"`; see the example
+below.  The manual's "any characters other than a double quote" is therefore true of a line
+with one string, not of every line.) -/
+theorem C16_string_backslash_last (n f : Nat) (cs rest : List Char) (hq : '"' ∉ cs)
+    (hr : '"' ∉ rest) :
+    lineTokens n (splitLine (f + 1) ('"' :: (cs ++ '"' :: rest)))
+      = ⟨"LITERAL_STRING", String.ofList cs, n⟩ :: lineTokens n (splitLine f rest) := by
+  rw [splitLine_string f cs rest (scanStringBody_last '"' cs rest hq hr),
+    lineTokens_string n cs hq]
+
+/-- `#` inside a string literal is not a comment, and what follows the literal is still lexed -/
+theorem C16_hash_in_string (n f : Nat) (a b rest : List Char) (ha : '"' ∉ a) (hb : '"' ∉ b)
+    (ha' : '\\' ∉ a) (hb' : '\\' ∉ b) :
+    lineTokens n (splitLine (f + 1) ('"' :: (a ++ '#' :: b ++ '"' :: rest)))
+      = ⟨"LITERAL_STRING", String.ofList (a ++ '#' :: b), n⟩ :: lineTokens n (splitLine f rest) := by
+  have := C16_string_free n f (a ++ '#' :: b) rest (by simp [ha, hb]) (by simp [ha', hb'])
+  simpa using this
+
+example : lineTokens 1 (splitLine 99 "\"[ - { # 12:30 end\"".toList)
+    = [⟨"LITERAL_STRING", "[ - { # 12:30 end", 1⟩] := by decide +kernel
+example : lineTokens 1 (splitLine 99 "define x \"a#b\" # c \"d\"".toList)
+    = [⟨"DEFINE", "define", 1⟩, ⟨"NAME", "x", 1⟩, ⟨"LITERAL_STRING", "a#b", 1⟩] := by
+  decide +kernel
+/-- a content ending in a backslash, alone on its line: one string -/
+example : lineTokens 1 (splitLine 99 "\"C:\\dir\\\" x".toList)
+    = [⟨"LITERAL_STRING", "C:\\dir\\", 1⟩, ⟨"NAME", "x", 1⟩] := by decide +kernel
+/-- … but with a second literal on the line the two are joined (why `C16_string_backslash_last`
+needs `'"' ∉ rest`) -/
+example : lineTokens 1 (splitLine 99 "\"a\\\" \"b\"".toList)
+    = [⟨"LITERAL_STRING", "a\" ", 1⟩, ⟨"NAME", "b", 1⟩, ⟨"ERROR", "\"", 1⟩] := by decide +kernel
+
+/-! ## 5. A `#` match cuts the line -/
+
+/-- In the list of matches of a line, everything from a `#` match on is dropped: the tokens
+are those of the matches before it.  (`#` is the only match that cuts: `unabbreviate_eq_hash`.) -/
+theorem C16_comment_cut (n : Nat) (xs ys : List (List Char)) :
+    lineTokens n (xs ++ ['#'] :: ys) = lineTokens n xs :=
+  lineTokens_cut n xs ys ['#'] rfl
+
+/-- … and before the first `#` match nothing is lost: one token per match, in order -/
+theorem C16_no_comment_no_cut (n : Nat) (xs ys : List (List Char)) (h : ['#'] ∉ xs) :
+    lineTokens n (xs ++ ys) = lineTokens n xs ++ lineTokens n ys ∧
+    (lineTokens n xs).length = xs.length :=
+  lineTokens_append n xs ys h
+
+/-! ## 4. The amount and kind of white space between tokens does not matter -/
+
+/-- For `a` free of double quotes and any NON-EMPTY white space `ws` (blanks, tabs, …), the
+matches of `a ++ ws ++ b` are the matches of `a` followed by the matches of `b`: tokens never
+join across white space, nothing of `ws` becomes a token, and what follows the white space is
+lexed as if it stood alone.  All fuels that are at least the length of the text are equal
+(`Lex.tokens` uses `length + 1`).
+
+Quote-freeness of `a` is what is needed of `a` in general: every scanner except the
+string-literal one looks at most one character past its match and stops at white space, while
+a `"` left open in `a` would swallow `ws` (strings are covered by `C16_layout_invariant`). -/
+theorem C16_whitespace_insensitive (a b ws : List Char) (f f₁ f₂ : Nat)
+    (ha : '"' ∉ a) (hne : ws ≠ []) (hws : ws.all isWs = true)
+    (hf : (a ++ ws ++ b).length ≤ f) (hf₁ : a.length ≤ f₁) (hf₂ : b.length ≤ f₂) :
+    splitLine f (a ++ ws ++ b) = splitLine f₁ a ++ splitLine f₂ b := by
+  rw [splitLine_append_ws f a ws b ha hne hws hf,
+    splitLine_fuel f₁ a.length a hf₁ (Nat.le_refl _), splitLine_fuel f₂ b.length b hf₂ (Nat.le_refl _)]
+
+/-- any white space is as good as one blank -/
+theorem C16_whitespace_kind (a b ws : List Char) (f f' : Nat)
+    (ha : '"' ∉ a) (hne : ws ≠ []) (hws : ws.all isWs = true)
+    (hf : (a ++ ws ++ b).length ≤ f) (hf' : (a ++ [' '] ++ b).length ≤ f') :
+    splitLine f (a ++ ws ++ b) = splitLine f' (a ++ [' '] ++ b) := by
+  rw [splitLine_append_ws f a ws b ha hne hws hf,
+    splitLine_append_ws f' a [' '] b ha (by simp) (by decide) hf']
+
+/-- leading white space (indentation) does nothing -/
+theorem C16_leading_whitespace (b ws : List Char) (f f' : Nat) (hws : ws.all isWs = true)
+    (hf : (ws ++ b).length ≤ f) (hf' : b.length ≤ f') :
+    splitLine f (ws ++ b) = splitLine f' b := by
+  simp only [List.length_append] at hf
+  have : f = (f - ws.length) + ws.length := by omega
+  rw [this, splitLine_ws_list _ _ _ hws]
+  exact splitLine_fuel _ _ _ (by omega) hf'
+
+/-- trailing white space does nothing -/
+theorem C16_trailing_whitespace (a ws : List Char) (f f' : Nat) (ha : '"' ∉ a)
+    (hws : ws.all isWs = true) (hf : (a ++ ws).length ≤ f) (hf' : a.length ≤ f') :
+    splitLine f (a ++ ws) = splitLine f' a := by
+  cases ws with
+  | nil => simp only [List.append_nil] at hf ⊢; exact splitLine_fuel _ _ _ hf hf'
+  | cons w ws =>
+    have := C16_whitespace_insensitive a [] (w :: ws) f f' 0 ha (by simp) hws (by simpa using hf)
+      hf' (by simp)
+    simpa [splitLine_nil] using this
+
+/-- a comment after white space: the line lexes as if it ended before the white space -/
+theorem C16_comment_after_ws (n : Nat) (a ws b : List Char) (f f' : Nat)
+    (ha : '"' ∉ a) (hne : ws ≠ []) (hws : ws.all isWs = true)
+    (hf : (a ++ ws ++ '#' :: b).length ≤ f) (hf' : a.length ≤ f') :
+    lineTokens n (splitLine f (a ++ ws ++ '#' :: b)) = lineTokens n (splitLine f' a) := by
+  rw [C16_whitespace_insensitive a ('#' :: b) ws f f' (b.length + 1) ha hne hws hf hf' (by simp),
+    splitLine_hash, C16_comment_cut]
+
+/-- a whole-line comment (possibly indented) gives no tokens -/
+theorem C16_comment_line (n : Nat) (ws b : List Char) (f : Nat) (hws : ws.all isWs = true)
+    (hf : (ws ++ '#' :: b).length ≤ f) :
+    lineTokens n (splitLine f (ws ++ '#' :: b)) = [] := by
+  rw [C16_leading_whitespace ('#' :: b) ws f (b.length + 1) hws hf (by simp), splitLine_hash]
+  rfl
+
+/-- Tokens never join across white space: without a comment in `a`, the tokens of
+`a ++ ws ++ b` are the tokens of `a` followed by the tokens of `b`. -/
+theorem C16_tokens_never_join (n : Nat) (a b ws : List Char) (f f₁ f₂ : Nat)
+    (ha : '"' ∉ a) (hne : ws ≠ []) (hws : ws.all isWs = true)
+    (hf : (a ++ ws ++ b).length ≤ f) (hf₁ : a.length ≤ f₁) (hf₂ : b.length ≤ f₂)
+    (hc : ['#'] ∉ splitLine f₁ a) :
+    lineTokens n (splitLine f (a ++ ws ++ b))
+      = lineTokens n (splitLine f₁ a) ++ lineTokens n (splitLine f₂ b) := by
+  rw [C16_whitespace_insensitive a b ws f f₁ f₂ ha hne hws hf hf₁ hf₂]
+  exact (lineTokens_append n _ _ hc).1
+
+/-- A line break is as good as a blank (up to the line numbers stored in the tokens): two
+lines, the first without a comment, lex to the same (type, content) sequence as the two
+joined by a blank. -/
+theorem C16_linebreak_as_blank (n : Nat) (l₁ l₂ : List Char) (h₁ : '"' ∉ l₁)
+    (hc : ['#'] ∉ splitLine (l₁.length + 1) l₁) :
+    (lineTokens n (splitLine ((l₁ ++ [' '] ++ l₂).length + 1) (l₁ ++ [' '] ++ l₂))).map
+        (fun t => (t.type, t.content))
+      = (lineTokens n (splitLine (l₁.length + 1) l₁) ++
+          lineTokens (n + 1) (splitLine (l₂.length + 1) l₂)).map (fun t => (t.type, t.content)) := by
+  rw [C16_tokens_never_join n l₁ l₂ [' '] _ (l₁.length + 1) (l₂.length + 1) h₁ (by simp)
+    (by decide) (Nat.le_succ _) (Nat.le_succ _) (Nat.le_succ _) hc]
+  simp only [List.map_append]
+  rw [lineTokens_line n (n + 1) (splitLine (l₂.length + 1) l₂)]
+
+/-! ## 4b. Operators, braces and brackets need no surrounding white space -/
+
+/-- Each of `[ ] { } ( ) + - / % : ^` is a match — and a `MARK` token — of its own wherever it
+stands and whatever follows it directly (`*` too unless a time pattern such as `*:30` starts
+there; `#` cuts the line: `C16_comment_cut`). -/
+theorem C16_punct_own_token (n f : Nat) (p : Char) (rest : List Char) (hp : p ∈ soloPunct)
+    (hne : p ≠ '#') :
+    splitLine (f + 1) (p :: rest) = [p] :: splitLine f rest ∧
+    lineTokens n (splitLine (f + 1) (p :: rest))
+      = ⟨"MARK", String.ofList [p], n⟩ :: lineTokens n (splitLine f rest) := by
+  refine ⟨splitLine_soloPunct f p rest hp, ?_⟩
+  rw [splitLine_soloPunct f p rest hp]
+  have key : ∀ q ∈ soloPunct, q ≠ '#' →
+      unabbreviate (String.ofList [q]) = String.ofList [q] ∧
+      (String.ofList [q] == "#") = false ∧
+      ((String.ofList [q]).length == 1 &&
+        LexTables.nonAlnumList.toList.contains ((String.ofList [q]).toList.headD ' ')) = true := by
+    decide +kernel
+  obtain ⟨k1, k2, k3⟩ := key p hp hne
+  rw [lineTokens]
+  simp only [k1, k2, k3, Bool.false_eq_true, if_false, if_true]
+
+/-- A word of the name form (a name or a keyword) ends exactly where its name characters end:
+whatever non-name character follows directly — an operator, a bracket, a brace, a quote —
+starts the next match. -/
+theorem C16_word_then_any (f : Nat) (c p : Char) (cs rest : List Char)
+    (hc : isNameStart c = true) (hcs : cs.all isNameChar = true) (hp : isNameChar p = false) :
+    splitLine (f + 1) (c :: cs ++ p :: rest) = (c :: cs) :: splitLine f (p :: rest) :=
+  splitLine_name_then f rest hc hcs hp
+
+/-- A run of digits is a match of its own in front of any character that is not a digit, `.`
+or `:` (and, for `*`, is not followed by `:` — `5*:30` is a time pattern). -/
+theorem C16_digits_then_any (f : Nat) (ds : List Char) (p : Char) (rest : List Char)
+    (hne : ds ≠ []) (hds : ds.all isDigit = true) (hp : endsNumber p rest) :
+    splitLine (f + 1) (ds ++ p :: rest) = ds :: splitLine f (p :: rest) :=
+  splitLine_digits_then f ds p rest hne hds hp
+
+/-- `{5%3}` by the three theorems: `{` alone, `5` ends at `%`, `%` alone, `3` ends at `}`, `}`
+alone (the expression that failed to compile on the pinned tree) -/
+example (f : Nat) : splitLine (f + 5) "{5%3}".toList = [['{'], ['5'], ['%'], ['3'], ['}']] := by
+  show splitLine (f + 4 + 1) ('{' :: "5%3}".toList) = _
+  rw [(C16_punct_own_token 0 (f + 4) '{' _ (by decide) (by decide)).1]
+  show ['{'] :: splitLine (f + 3 + 1) (['5'] ++ '%' :: "3}".toList) = _
+  rw [C16_digits_then_any (f + 3) ['5'] '%' _ (by decide) (by decide)
+    ⟨by decide, by decide, by decide, by decide⟩]
+  show ['{'] :: ['5'] :: splitLine (f + 2 + 1) ('%' :: "3}".toList) = _
+  rw [(C16_punct_own_token 0 (f + 2) '%' _ (by decide) (by decide)).1]
+  show ['{'] :: ['5'] :: ['%'] :: splitLine (f + 1 + 1) (['3'] ++ '}' :: []) = _
+  rw [C16_digits_then_any (f + 1) ['3'] '}' _ (by decide) (by decide)
+    ⟨by decide, by decide, by decide, by decide⟩]
+  rw [(C16_punct_own_token 0 f '}' _ (by decide) (by decide)).1, splitLine_nil]
+example : lineTokens 1 (splitLine 99 "[f(x+1)]".toList)
+    = lineTokens 1 (splitLine 99 "[ f ( x + 1 ) ]".toList) := by decide +kernel
+/-- `*` is excluded from `soloPunct` for a reason: `*:30` is a time pattern, `* :30` is not -/
+example : splitLine 9 "*:30".toList = ["*:30".toList] ∧
+    splitLine 9 "2*3".toList = [['2'], ['*'], ['3']] := by decide +kernel
+
+/-! ### whole lines: pieces and separators -/
+
+/-- a piece of a line: text free of double quotes, or a string literal with its content -/
+inductive Word where
+  | plain (a : List Char)
+  | str (cs : List Char)
+
+def Word.text : Word → List Char
+  | .plain a => a
+  | .str cs => '"' :: (cs ++ ['"'])
+
+/-- plain text has no `"`; a string content has no `"` and does not end in `\` -/
+def Word.ok : Word → Prop
+  | .plain a => '"' ∉ a
+  | .str cs => '"' ∉ cs ∧ cs.getLast? ≠ some '\\'
+
+/-- the matches a piece gives when it stands alone -/
+def Word.matches : Word → List (List Char)
+  | .plain a => splitLine a.length a
+  | .str cs => ['"' :: (cs ++ ['"'])]
+
+/-- a line laid out as pieces, each followed by its separator -/
+def layout (ps : List (Word × List Char)) : List Char := (ps.map fun p => p.1.text ++ p.2).flatten
+
+/-- Layout invariance of the match list: a line made of pieces (quote-free text and simple
+string literals), each followed by ANY non-empty white space, has the matches of its pieces, in
+order — independent of the separators.  `b` is whatever follows (e.g. nothing, or a comment). -/
+theorem C16_layout_invariant (ps : List (Word × List Char)) (b : List Char) (f : Nat)
+    (h : ∀ p ∈ ps, p.1.ok ∧ p.2 ≠ [] ∧ p.2.all isWs = true)
+    (hf : (layout ps ++ b).length ≤ f) :
+    splitLine f (layout ps ++ b) = (ps.map fun p => p.1.matches).flatten ++ splitLine b.length b := by
+  induction ps generalizing f with
+  | nil => simp only [layout, List.map_nil, List.flatten_nil, List.nil_append] at hf ⊢
+           exact splitLine_fuel _ _ _ hf (Nat.le_refl _)
+  | cons p ps ih =>
+    obtain ⟨hok, hne, hws⟩ := h p (List.mem_cons_self)
+    have hrest : ∀ q ∈ ps, q.1.ok ∧ q.2 ≠ [] ∧ q.2.all isWs = true :=
+      fun q hq => h q (List.mem_cons_of_mem _ hq)
+    obtain ⟨w, sep⟩ := p
+    simp only at hok hne hws
+    have hlay : layout ((w, sep) :: ps) ++ b = w.text ++ sep ++ (layout ps ++ b) := by
+      simp [layout]
+    have hm : (((w, sep) :: ps).map fun p => p.1.matches).flatten ++ splitLine b.length b
+        = w.matches ++ ((ps.map fun p => p.1.matches).flatten ++ splitLine b.length b) := by simp
+    rw [hlay] at hf ⊢
+    rw [hm]
+    cases w with
+    | plain a =>
+      change splitLine f (a ++ sep ++ (layout ps ++ b)) = splitLine a.length a ++ _
+      rw [splitLine_append_ws f a sep _ hok hne hws hf, ih _ hrest (Nat.le_refl _)]
+    | str cs =>
+      change splitLine f ('"' :: (cs ++ ['"']) ++ sep ++ (layout ps ++ b))
+        = ['"' :: (cs ++ ['"'])] ++ _
+      change ('"' :: (cs ++ ['"']) ++ sep ++ (layout ps ++ b)).length ≤ f at hf
+      have e : '"' :: (cs ++ ['"']) ++ sep ++ (layout ps ++ b)
+          = '"' :: (cs ++ '"' :: (sep ++ (layout ps ++ b))) := by simp
+      rw [e] at hf ⊢
+      simp only [List.length_cons, List.length_append] at hf
+      obtain ⟨f', rfl⟩ : ∃ f', f = f' + 1 := ⟨f - 1, by omega⟩
+      rw [splitLine_string f' cs _ (scanStringBody_noesc '"' cs _ hok.1 (getLast?_quote_cons cs hok.2))]
+      have : f' = (f' - sep.length) + sep.length := by omega
+      rw [this, splitLine_ws_list _ _ _ hws, ih _ hrest (by simp only [List.length_append]; omega)]
+      rfl
+
+/-- … so two layouts of the same pieces have the same matches, hence the same tokens -/
+theorem C16_relayout (ps qs : List (Word × List Char)) (n f g : Nat)
+    (hp : ∀ p ∈ ps, p.1.ok ∧ p.2 ≠ [] ∧ p.2.all isWs = true)
+    (hq : ∀ p ∈ qs, p.1.ok ∧ p.2 ≠ [] ∧ p.2.all isWs = true)
+    (hsame : ps.map (·.1) = qs.map (·.1))
+    (hf : (layout ps).length ≤ f) (hg : (layout qs).length ≤ g) :
+    lineTokens n (splitLine f (layout ps)) = lineTokens n (splitLine g (layout qs)) := by
+  have e1 := C16_layout_invariant ps [] f hp (by simpa using hf)
+  have e2 := C16_layout_invariant qs [] g hq (by simpa using hg)
+  simp only [List.append_nil] at e1 e2
+  have hm : (ps.map fun p => p.1.matches) = (qs.map fun p => p.1.matches) := by
+    have := congrArg (List.map Word.matches) hsame
+    rw [List.map_map, List.map_map] at this
+    exact this
+  rw [e1, e2, hm]
+
+/-! ### non-vacuity -/
+
+example : splitLine 99 "set\t \thue   120".toList = splitLine 99 "set hue 120".toList := by
+  decide +kernel
+example : splitLine 99 "set\t \thue   120".toList
+    = [['s', 'e', 't'], ['h', 'u', 'e'], ['1', '2', '0']] := by decide +kernel
+/-- the theorem applied: `a = "if x"`, `ws = "\t\t "`, `b = ">= 5 {"` -/
+example : splitLine 99 ("if x".toList ++ "\t\t ".toList ++ ">= 5 {".toList)
+    = splitLine 9 "if x".toList ++ splitLine 9 ">= 5 {".toList :=
+  C16_whitespace_insensitive _ _ _ 99 9 9 (by decide) (by decide) (by decide) (by decide)
+    (by decide) (by decide)
+example : lineTokens 1 (splitLine 99 "  on all \t# switch \"everything\" on".toList)
+    = [⟨"ON", "on", 1⟩, ⟨"ALL", "all", 1⟩] := by decide +kernel
+example : lineTokens 1 (splitLine 99 "\t # only a comment".toList) = [] :=
+  C16_comment_line 1 "\t ".toList " only a comment".toList 99 (by decide) (by decide)
+/-- operators, braces and brackets need no white space (one instance; `5%3` failed on the
+pinned tree) -/
+example : lineTokens 1 (splitLine 99 "{5%3}".toList)
+    = lineTokens 1 (splitLine 99 "{ 5 % 3 }".toList) := by decide +kernel
+/-- a `#` directly after a default-class character is NOT a comment (`[^\s]+` takes it): the
+white space in `C16_comment_after_ws` matters only there — after names, numbers and
+punctuation a `#` cuts at once -/
+example : lineTokens 1 (splitLine 99 "@#x".toList) = [⟨"ERROR", "@#x", 1⟩] ∧
+    lineTokens 1 (splitLine 99 "on#x".toList) = [⟨"ON", "on", 1⟩] := by decide +kernel
+/-- `C16_layout_invariant` applied to `define x "a # b"` with three different separators -/
+example :
+    let ps : List (Word × List Char) :=
+      [(.plain "define".toList, " \t".toList), (.plain "x".toList, "\t".toList),
+       (.str "a # b".toList, "  ".toList)]
+    layout ps = "define \tx\t\"a # b\"  ".toList ∧
+    splitLine 99 (layout ps ++ []) = ["define".toList, "x".toList, "\"a # b\"".toList] := by
+  intro ps
+  refine ⟨by decide, ?_⟩
+  rw [C16_layout_invariant ps [] 99 (by
+      intro p hp
+      simp only [ps, List.mem_cons, List.not_mem_nil, or_false] at hp
+      rcases hp with rfl | rfl | rfl
+      · exact ⟨by simp [Word.ok], by decide, by decide⟩
+      · exact ⟨by simp [Word.ok], by decide, by decide⟩
+      · exact ⟨by simp [Word.ok], by decide, by decide⟩)
+    (by decide)]
+  decide +kernel
+
+end Bardolph.Lex
+
+/-! ## 7. The two peephole equivalences behind "braces round a single value change nothing"
+
+`{v}` compiles to `PUSHQ v; POP d` (resp. `PUSH src; POP d`) where the bare value compiles to
+`MOVEQ v d` (resp. `MOVE src d`).  The harness normalises instruction lists with these two
+rewrites before comparing them; the lemmas say the rewrites do not change what the VM does,
+apart from the program counter (one instruction fewer).
+
+`MOVEQ` into the `unit_mode` register converts the colour registers, a `POP` there does not —
+hence `d ≠ unit_mode`.  `PUSH` of a register or variable holding `None` faults, `MOVE` copies
+the `None` — hence the hypothesis on `s.read src` (`C16_push_none_faults`). -/
 namespace Bardolph
+open Vm VmSteps
+
+theorem putVariable_pc (s : State) (n : String) (v : Val) (x : Int) :
+    ({ s with pc := x }).putVariable n v = { s.putVariable n v with pc := x } := by
+  unfold State.putVariable
+  simp only
+  repeat' split
+  all_goals first | rfl | simp_all
+
+theorem put_pc (s : State) (d : Dst) (v : Val) (x : Int) :
+    ({ s with pc := x }).put d v = { s.put d v with pc := x } := by
+  cases d with
+  | reg r => rfl
+  | var n => exact putVariable_pc s n v x
+  | loopVar l =>
+    simp only [State.put, State.putLoopVar]
+    split <;> rfl
+
+theorem put_pc_eq (s : State) (d : Dst) (v : Val) : (s.put d v).pc = s.pc := by
+  cases d with
+  | reg r => rfl
+  | var n =>
+    simp only [State.put]
+    unfold State.putVariable
+    repeat' split
+    all_goals rfl
+  | loopVar l =>
+    simp only [State.put, State.putLoopVar]
+    split <;> rfl
+
+theorem execInstr_moveq (img : Image) (s : State) (v : Val) (d : Dst) (hd : d ≠ .reg .unitMode) :
+    execInstr img s (.moveq v d) = s.put d v := by
+  cases d with
+  | reg r => cases r <;> first | exact absurd rfl hd | rfl
+  | var n => rfl
+  | loopVar l => rfl
+
+/-- the state after `PUSHQ v; POP d` resp. after `MOVEQ v d`, described explicitly -/
+theorem pushq_pop_run (img : Image) (s : State) (p : Nat) (v : Val) (d : Dst)
+    (hs : s.status = .running) (hpc : s.pc = (p : Int)) (hc : CodeAt img p [.pushq v, .pop d]) :
+    run img 2 s = if (s.put d v).status = .running then { s.put d v with pc := (p : Int) + 2 }
+      else { s.put d v with pc := (p : Int) + 1 } := by
+  have h1 := step_pushq img s p v hs hpc hc.head
+  have hi2 : img.code[p + 1]? = some (.pop d) := hc.tail.head
+  rw [show (2 : Nat) = 1 + 1 from rfl, run_add, run_one img s hs, h1]
+  rw [run_one _ _ (by simpa using hs)]
+  rw [step_pop img _ (p + 1) d v s.eval (by simpa using hs) (by simp) hi2 rfl]
+  simp only [put_pc]
+  split
+  · rw [Int.add_assoc]; rfl
+  · rfl
+
+theorem moveq_step (img : Image) (s : State) (p : Nat) (v : Val) (d : Dst)
+    (hs : s.status = .running) (hpc : s.pc = (p : Int)) (hc : CodeAt img p [.moveq v d])
+    (hd : d ≠ .reg .unitMode) :
+    step img s = if (s.put d v).status = .running then { s.put d v with pc := (p : Int) + 1 }
+      else s.put d v := by
+  rw [step_plain_gen img s p _ hs hpc hc.head (by simp) rfl, execInstr_moveq img s v d hd,
+    put_pc_eq, hpc]
+
+
+theorem push_step (img : Image) (s : State) (p : Nat) (src : Src)
+    (hs : s.status = .running) (hpc : s.pc = (p : Int)) (hi : img.code[p]? = some (.push src))
+    (hv : (∀ x, src ≠ .lit x) → s.read src ≠ .none) :
+    step img s = { s with pc := (p : Int) + 1, eval := s.read src :: s.eval } := by
+  by_cases hl : ∀ x, src ≠ .lit x
+  · exact step_push img s p src _ hs hpc hi hl rfl (hv hl)
+  · have : ∃ x, src = .lit x := by
+      cases src with
+      | lit x => exact ⟨x, rfl⟩
+      | _ => exact absurd (fun x => by simp) hl
+    obtain ⟨x, rfl⟩ := this
+    rw [step_plain img s p _ hs hpc hi (by simp) rfl]
+    · simp [execInstr, hpc, State.read]
+    · simp [execInstr, hs]
+
+theorem push_pop_run (img : Image) (s : State) (p : Nat) (src : Src) (d : Dst)
+    (hs : s.status = .running) (hpc : s.pc = (p : Int)) (hc : CodeAt img p [.push src, .pop d])
+    (hv : (∀ x, src ≠ .lit x) → s.read src ≠ .none) :
+    run img 2 s = if (s.put d (s.read src)).status = .running
+      then { s.put d (s.read src) with pc := (p : Int) + 2 }
+      else { s.put d (s.read src) with pc := (p : Int) + 1 } := by
+  have h1 := push_step img s p src hs hpc hc.head hv
+  have hi2 : img.code[p + 1]? = some (.pop d) := hc.tail.head
+  rw [show (2 : Nat) = 1 + 1 from rfl, run_add, run_one img s hs, h1]
+  rw [run_one _ _ (by simpa using hs)]
+  rw [step_pop img _ (p + 1) d (s.read src) s.eval (by simpa using hs) (by simp) hi2 rfl]
+  simp only [put_pc]
+  split
+  · rw [Int.add_assoc]; rfl
+  · rfl
+
+theorem move_step (img : Image) (s : State) (p : Nat) (src : Src) (d : Dst)
+    (hs : s.status = .running) (hpc : s.pc = (p : Int)) (hc : CodeAt img p [.move src d]) :
+    step img s = if (s.put d (s.read src)).status = .running
+      then { s.put d (s.read src) with pc := (p : Int) + 1 } else s.put d (s.read src) := by
+  rw [step_plain_gen img s p _ hs hpc hc.head (by simp) rfl]
+  simp only [execInstr, put_pc_eq, hpc]
+
+/-- `PUSH src` of a non-literal operand whose value is `None` faults -/
+theorem push_none_faults (img : Image) (s : State) (p : Nat) (src : Src)
+    (hs : s.status = .running) (hpc : s.pc = (p : Int)) (hi : img.code[p]? = some (.push src))
+    (hl : ∀ x, src ≠ .lit x) (hv : s.read src = .none) :
+    (step img s).status = .fault "pushing None onto eval stack" := by
+  have hex : execInstr img s (.push src) = s.fault "pushing None onto eval stack" := by
+    cases src with
+    | lit x => exact absurd rfl (hl x)
+    | _ => simp only [execInstr, hv]
+  rw [step_plain_gen img s p _ hs hpc hi (by simp) rfl, hex]
+  simp [State.fault]
+
+
+/-- `PUSHQ v; POP d` at `p` in one image, `MOVEQ v d` at `p` in another: after two steps resp.
+one step the machines are in the same state (`s.put d v`, including a fault raised by the
+store) except for `pc`; if the store succeeded the program counters are just past the
+respective code. -/
+theorem C16_peephole_pushq_pop (img img' : Image) (s : State) (p : Nat) (v : Val) (d : Dst)
+    (hs : s.status = .running) (hpc : s.pc = (p : Int))
+    (hc : CodeAt img p [.pushq v, .pop d]) (hc' : CodeAt img' p [.moveq v d])
+    (hd : d ≠ .reg .unitMode) :
+    { run img 2 s with pc := 0 } = { step img' s with pc := 0 } ∧
+    { step img' s with pc := 0 } = { s.put d v with pc := 0 } ∧
+    ((step img' s).status = .running →
+      (run img 2 s).pc = (p : Int) + 2 ∧ (step img' s).pc = (p : Int) + 1) := by
+  rw [pushq_pop_run img s p v d hs hpc hc, moveq_step img' s p v d hs hpc hc' hd]
+  by_cases h : (s.put d v).status = .running
+  · rw [if_pos h, if_pos h]; exact ⟨rfl, rfl, fun _ => ⟨rfl, rfl⟩⟩
+  · rw [if_neg h, if_neg h]; exact ⟨rfl, rfl, fun h' => absurd h' h⟩
+
+/-- `PUSH src; POP d` against `MOVE src d`, when the pushed value is not `None` (or `src` is a
+literal, which `PUSH` does not test) -/
+theorem C16_peephole_push_pop (img img' : Image) (s : State) (p : Nat) (src : Src) (d : Dst)
+    (hs : s.status = .running) (hpc : s.pc = (p : Int))
+    (hc : CodeAt img p [.push src, .pop d]) (hc' : CodeAt img' p [.move src d])
+    (hv : (∀ x, src ≠ .lit x) → s.read src ≠ .none) :
+    { run img 2 s with pc := 0 } = { step img' s with pc := 0 } ∧
+    { step img' s with pc := 0 } = { s.put d (s.read src) with pc := 0 } ∧
+    ((step img' s).status = .running →
+      (run img 2 s).pc = (p : Int) + 2 ∧ (step img' s).pc = (p : Int) + 1) := by
+  rw [push_pop_run img s p src d hs hpc hc hv, move_step img' s p src d hs hpc hc']
+  by_cases h : (s.put d (s.read src)).status = .running
+  · rw [if_pos h, if_pos h]; exact ⟨rfl, rfl, fun _ => ⟨rfl, rfl⟩⟩
+  · rw [if_neg h, if_neg h]; exact ⟨rfl, rfl, fun h' => absurd h' h⟩
+
+/-- why `C16_peephole_push_pop` needs its hypothesis: with `None` in a non-literal source the
+`PUSH` faults, the `MOVE` stores the `None` -/
+theorem C16_push_none_faults (img img' : Image) (s : State) (p : Nat) (src : Src) (d : Dst)
+    (hs : s.status = .running) (hpc : s.pc = (p : Int))
+    (hc : CodeAt img p [.push src, .pop d]) (hc' : CodeAt img' p [.move src d])
+    (hl : ∀ x, src ≠ .lit x) (hv : s.read src = .none) :
+    (run img 2 s).status = .fault "pushing None onto eval stack" ∧
+    { step img' s with pc := 0 } = { s.put d .none with pc := 0 } := by
+  constructor
+  · have h1 := push_none_faults img s p src hs hpc hc.head hl hv
+    rw [show (2 : Nat) = 1 + 1 from rfl, run_add, run_one img s hs,
+      run_halted _ _ _ (by rw [h1]; simp), h1]
+  · rw [move_step img' s p src d hs hpc hc', hv]
+    split <;> rfl
+
+/-! non-vacuity: concrete images and a concrete state -/
+
+example : CodeAt ⟨#[.nop, .pushq (.num 5), .pop (.reg .hue), .stop], []⟩ 1
+    [.pushq (.num 5), .pop (.reg .hue)] := CodeAt.intro [.nop] _ [.stop] []
+example : CodeAt ⟨#[.nop, .moveq (.num 5) (.reg .hue), .stop], []⟩ 1
+    [.moveq (.num 5) (.reg .hue)] := CodeAt.intro [.nop] _ [.stop] []
+
+example :
+    let s : State := { Vm.init [] with pc := 1 }
+    { run ⟨#[.nop, .pushq (.num 5), .pop (.reg .hue), .stop], []⟩ 2 s with pc := 0 }
+      = { step ⟨#[.nop, .moveq (.num 5) (.reg .hue), .stop], []⟩ s with pc := 0 } :=
+  (C16_peephole_pushq_pop _ _ _ 1 (.num 5) (.reg .hue) rfl rfl
+    (CodeAt.intro [.nop] _ [.stop] []) (CodeAt.intro [.nop] _ [.stop] []) (by decide)).1
+
+example :
+    let s : State := { Vm.init [] with pc := 1 }
+    { run ⟨#[.nop, .push (.reg .hue), .pop (.var "x"), .stop], []⟩ 2 s with pc := 0 }
+      = { step ⟨#[.nop, .move (.reg .hue) (.var "x"), .stop], []⟩ s with pc := 0 } :=
+  (C16_peephole_push_pop _ _ _ 1 (.reg .hue) (.var "x") rfl rfl
+    (CodeAt.intro [.nop] _ [.stop] []) (CodeAt.intro [.nop] _ [.stop] [])
+    (fun _ => by simp [State.read, Vm.init, initRegs])).1
+
 end Bardolph
